@@ -349,7 +349,7 @@ def ties_case(draw, tier="quick"):
      "round-number set-ups (catalogue pixel pitches, focal lengths, wavelengths on a decimal nm grid) where "
      "wavelength*z*oversample/(dx*du) sits on or within 2 ulp of N+1/2: a dirty buffer of exactly "
      "scratch_shape(band) must be accepted for every wavelength of the band and give the field obtained without "
-     "scratch, which must be the DFT on whichever of the two adjacent grids was chosen", examples=(250, 1000),
+     "scratch, which must be the DFT on whichever of the two adjacent grids was chosen", examples=(600, 2000),
      budget_s=(120, 600))
 def ties(case, ctx):
     if single_sample(case["pupil"]):
